@@ -59,6 +59,7 @@ func TestCheck(t *testing.T) {
 		"per case the PRNG picks per-node candidate data (head roots, FFG checkpoints, blocks, sync block roots, exit epochs), late starts, beacon-node latency / no proposal, the delivery profile (delay, reordering, duplication, transient partition), " +
 		"up to f = floor((n-1)/3) faulty identities (crash = cut off at a PRNG envelope index, possibly mid fan-out; Byzantine = harness-driven identity with its real key shares sending equivocating / cross-fork / replayed / invalid partial signatures, with or without an honest stack, " +
 		"half of them also misbehaving in consensus: two PRE-PREPAREs as round-1 leader, double PREPARE/COMMIT, ROUND-CHANGE noise), " +
+		"signatures observed on the wire re-sent with their share indices attached to other signed data (later slot / other validator / other duty type), nodes whose beacon node fails chain-parameter lookups (also exactly between partial verification and aggregation), " +
 		"late replays and duty expiry followed by replays. A simulated VC per node signs exactly what its node serves. " +
 		"non-trivial = at least one broadcast AND at least one fault or divergence took effect (round change, differing candidate data, refused or equivocating partial signature, envelopes lost to a crash); " +
 		"distinct = hash of (n, roles, duty kinds, object versions, effects observed, broadcast pattern)")
@@ -83,6 +84,7 @@ func TestCheck(t *testing.T) {
 	r.Require("cases_with_broadcast", int64(n)/2)
 	r.Require("threshold_triggers_with_2plus_failing_validators", int64(n)/10)
 	r.Require("transplanted_sets_with_threshold_shares", int64(n)/5)
+	r.Require("bn_lookup_failures_injected", int64(n))
 
 	var sampled atomic.Int32
 	r.Cases(n, par, func(c *kit.Case) {
@@ -289,6 +291,14 @@ func (w *world) finish(replayed int, sampled *atomic.Int32) {
 	r.Count("partials/accepted_from_byzantine", int64(m.acceptedByz))
 	r.Count("partials/equivocation_refused_by_parsigdb", int64(m.equivocations))
 	r.Count("vc/submissions_accepted", int64(m.vcSubmitted))
+	for _, nd := range w.nodes {
+		if !nd.bare {
+			r.Count("bn_lookup_failures_injected", nd.client.failed.Load())
+			if w.p.BNFlaky[nd.idx] {
+				r.Count("nodes_with_flaky_beacon_node", 1)
+			}
+		}
+	}
 	r.Count("threshold_triggers_with_1_failing_validator", int64(m.failing1))
 	r.Count("threshold_triggers_with_2plus_failing_validators", int64(m.failing2))
 	r.Count("objects_whose_slot_differs_from_duty_slot", int64(m.templateOdd))
